@@ -161,6 +161,18 @@ func applyOutcome(b *simbmc.BMC, rx *simbmc.Rx, o Outcome, finalCode byte) {
 		if rx.Msg.NetFn == ref.NetFnApp && rx.Msg.Cmd == 0x42 {
 			other.Cmd = 0x41
 		}
+		// the other command may also belong to a group extension (a DCMI reply,
+		// body code 0xDC) or to an OEM network function (enterprise number)
+		switch b.Rand.Intn(4) {
+		case 0:
+			if rx.Msg.NetFn != ref.NetFnGroup {
+				other.NetFn, other.Cmd, other.Data = ref.NetFnGroup, 0x02, []byte{0xDC}
+			}
+		case 1:
+			if rx.Msg.NetFn != ref.NetFnOEM {
+				other.NetFn, other.Cmd, other.Data = ref.NetFnOEM, 0x30, []byte{0x57, 0x01, 0x00}
+			}
+		}
 		cc := byte(0)
 		if o == StrayBusy {
 			cc = 0xC0
